@@ -125,6 +125,17 @@ PROPS = {
     "C11": sync_prop(C11T, ["updateStatus-parent", "failed-updateStatus"],
                      "non-trivial = a parent status write was attempted" + RULE_INTERLEAVE, ["status", "outcome"],
                      extra_streams=[rounds("interleave", 600, 6000, ["updateStatus-parent", "failed-updateStatus"])]),
+    "C14": {
+        "theorems": [("Mc.Props.C14", "Mc.C14." + t) for t in ["C14_parent", "C14_child", "C14_related", "C14_replay_silent", "C14_only_admitted",
+                     "C14_controlled_child_one_parent", "C14_parent_decorator", "C14_child_decorator", "C14_decorator_ignores_orphans"]],
+        "streams": [events("composite", 900, 9000, ["enqueued"]), events("decorator", 500, 5000, ["enqueued"])],
+        "nontrivial": ["enqueued"],
+        "rule": "watch events delivered to the real handlers of both controller kinds with workers off" + RULE_EVENTS + "; non-trivial = the event queued at least one parent; "
+                "distinct = distinct (cfg, cached parents, event) text",
+        "trusted_base": TB_SYNC,
+        "assumptions": ["an informer cache holds one object per (apiVersion, kind, namespace, name)",
+                        "the customize answers a related-object handler works from are read back from the manager's cache after the event"],
+    },
     "C15": sync_prop(C15T, ["hook-customize", "related-selected"],
                      "non-trivial = the customize hook was called in the sync, or (event stream) the related object is selected by some parent's rules" + RULE_EVENTS,
                      ["hook", "outcome", "events"], extra_streams=[events("composite", 600, 6000, ["related-selected", "related-add", "related-update", "related-delete"])]),
